@@ -357,6 +357,19 @@ def run_shard(desc, seed, tier):
                     v = check_case(case, budget=120)
                     v.classes = tuple(v.classes) + ("lexical-length",)
                     acc.add(case, v)
+        # many DISTINCT tag names in one parse (per-phase handler caches fill up and evict), in every prefix context
+        tails = ["", "<p>t<table><tr><td>c</table>", "<td>y</table>", "<input><option>", "<frame>", "</p></div></table>"]
+        for pi, pre in enumerate(PREFIX):
+            for K in ((12, 20, 70, 130, 400) if quick else (5, 12, 20, 40, 70, 120, 130, 400, 3000)):
+                for shape in range(3):
+                    k += 1
+                    body = "".join(("<n%d>" % i, "</n%d>" % i, "<n%d></n%d>" % (i, i))[shape] for i in range(K))
+                    (builder, ns, ft) = CONFIGS[k % len(CONFIGS)]
+                    container = None if k % 3 else soup.CONTEXTS[(k // 3) % len(soup.CONTEXTS)]
+                    case = {"text": pre + body + tails[k % len(tails)], "builder": builder, "namespace": ns, "full_tree": ft, "container": container, "scripting": bool(k % 2)}
+                    v = check_case(case, budget=60)
+                    v.classes = tuple(v.classes) + ("distinct-names",)
+                    acc.add(case, v)
     else:
         import itertools
         quick = desc["quick"]
